@@ -755,6 +755,11 @@ def complete_ensemble_sift(X, nensembles=4, ensemble_noise=.2,
     res = p.starmap(sift, args)
     noise = noise - np.array([r[:, 0] for r in res]).T
 
+    # One IMF has been computed already
+    layer = 1
+    if max_imfs is not None and layer >= max_imfs:
+        continue_sift = False
+
     while continue_sift:
 
         proto_imf = X - imf.sum(axis=1)[:, None]
@@ -776,13 +781,13 @@ def complete_ensemble_sift(X, nensembles=4, ensemble_noise=.2,
         if len(pks) < 2:
             continue_sift = False
 
-        if max_imfs is not None and layer == max_imfs:
+        layer += 1
+
+        if max_imfs is not None and layer >= max_imfs:
             continue_sift = False
 
         if np.abs(next_imf).mean() < sift_thresh:
             continue_sift = False
-
-        layer += 1
 
     p.close()
 
